@@ -1305,6 +1305,7 @@ static mi_segment_t* mi_segment_reclaim(mi_segment_t* segment, mi_heap_t* heap, 
 bool _mi_segment_attempt_reclaim(mi_heap_t* heap, mi_segment_t* segment) {
   if (mi_atomic_load_relaxed(&segment->thread_id) != 0) return false;  // it is not abandoned
   if (segment->subproc != heap->tld->segments.subproc)  return false;  // only reclaim within the same subprocess
+  if (heap->no_reclaim) return false;                                  // a heap that can be destroyed must not adopt pages with blocks of other heaps
   if (!_mi_heap_memid_is_suitable(heap,segment->memid)) return false;  // don't reclaim between exclusive and non-exclusive arena's
   const long target = _mi_option_get_fast(mi_option_target_segments_per_thread);
   if (target > 0 && (size_t)target <= heap->tld->segments.count) return false; // don't reclaim if going above the target count
@@ -1361,6 +1362,7 @@ static long mi_segment_get_reclaim_tries(mi_segments_tld_t* tld) {
 static mi_segment_t* mi_segment_try_reclaim(mi_heap_t* heap, size_t needed_slices, size_t block_size, bool* reclaimed, mi_segments_tld_t* tld)
 {
   *reclaimed = false;
+  if (heap->no_reclaim) return NULL;  // a heap that can be destroyed must not adopt pages with blocks of other heaps
   long max_tries = mi_segment_get_reclaim_tries(tld);
   if (max_tries <= 0) return NULL;
 
